@@ -254,8 +254,80 @@ def answerCli (pre post : List String) : String :=
       "diff arm=" ++ a ++ " model=" ++ ",".intercalate (m.1.map (·.name)) ++ "/" ++ showRet m.2
     else "ok arm=" ++ a
 
+/-! ### add lines -/
+
+def parseMp (s : String) : Option Multipart :=
+  if s == "ok" then some .ok else if s == "none" then some .none else if s == "junk" then some .junk else none
+
+def parseAddReq (ws : List String) : Option AddReq := do
+  pure { creds := (← field ws "cr") == "1", auth := ← parseAuth (← field ws "au"), mp := ← parseMp (← field ws "mp"),
+         query := ← parseQuery (← field ws "q"), md := ← listOf parseKV (← field ws "md"), rpc := ← parseRpc (← field ws "rpc") }
+
+def parseRoot (s : String) : Option (Option RootDesc) :=
+  if s == "-" then some none
+  else match s.splitOn "." with
+    | [v, c, h] => v.toNat?.map (fun n => some ⟨n, c, h⟩)
+    | _ => none
+
+def parseAddOp (s : String) : Option Op :=
+  match s.splitOn "@" with
+  | [n, "opts", o] => (parseOpts o).map (fun x => ⟨n, .path "" (canonOpts x)⟩)
+  | _ => parseOp s
+
+def parseAddResp (ws : List String) : Option AddResp := do
+  let opsTok ← field ws "ops"
+  let ops ← if opsTok == "-" then some [] else (opsTok.splitOn "|").mapM parseAddOp
+  pure { status := ← (← field ws "st").toNat?, body := ← parseBodyShape (← field ws "body"), trailer := (← field ws "tr") == "1",
+         root := ← parseRoot (← field ws "root"), ops := ops }
+
+/-- a streamed body is one document per added node and progress note: how many is the adder's business
+    (C13), as are the version and codec of the root CID; only "JSON documents and nothing else" and the hash
+    function are compared -/
+def normAddBody (r : AddReq) (o : AddResp) : AddResp :=
+  let o : AddResp := { o with root := o.root.map (fun (x : RootDesc) => ({ x with version := 0, codec := "" } : RootDesc)) }
+  match o.body with
+  | .docs _ => if addStreams r && o.status == 200 then { o with body := .docs 0 } else o
+  | _ => o
+
+def canonAddResp (o : AddResp) : AddResp := { o with ops := canonOps o.ops }
+
+/-- why the strict reading calls the add request malformed -/
+def addWhy (r : AddReq) : String :=
+  "+".intercalate (
+    (if r.mp == .none then ["no-body"] else if r.mp == .junk then ["body-junk"] else []) ++
+    (if bodyMismatch r.query then ["body-mismatch"] else []) ++
+    optReasons { creds := r.creds, auth := r.auth, pf := false, method := "POST", segs := [], slash := false,
+                 query := r.query, md := r.md, body := .none, rpc := r.rpc } ++
+    (if (lateWord (getq r.query "chunker") "").isNone then ["chunker"] else []) ++
+    (if (lateWord (getq r.query "hash") "").isNone then ["hash"] else []) ++
+    (if addBoolKeys.all (fun k => (boolParam (getq r.query k) false).isSome) then [] else ["bool"]) ++
+    (if (wordParam (getq r.query "layout")).isSome then [] else ["layout"]) ++
+    (if (wordParam (getq r.query "format")).isSome then [] else ["format"]) ++
+    (if (intParam (getq r.query "cid-version") 0).isSome then [] else ["cid-version"]))
+
+def answerAdd (pre post : List String) : String :=
+  match parseAddReq pre, parseAddResp post with
+  | some r, some o =>
+    let m := addHandle r
+    let a := "Add-" ++ toString m.status ++ (if m.trailer then "-trailer" else "")
+    let failed := (addClauses r o).filter (fun c => !c.2)
+    if !failed.isEmpty then
+      let names := failed.map (·.1)
+      "propfail " ++ ",".intercalate names ++ " arm=" ++ a ++
+        (if names.contains "fail_closed" then " why=" ++ addWhy r else "") ++
+        (if names.contains "faithful" && (intParam (getq r.query "cid-version") 0) == some 0 && hashOf r != "sha2-256"
+          then " why=v0-hash" else "") ++
+        (if names.contains "answered" then " why=no-response" else "")
+    else if canonAddResp (normAddBody r o) != canonAddResp (normAddBody r m) then
+      "diff arm=" ++ a ++ " model=st=" ++ toString m.status ++ ",body=" ++ showBody m.body ++ ",ops=" ++
+        ",".intercalate (m.ops.map (·.name)) ++ ",root=" ++ (match m.root with | some x => toString x.version ++ "." ++ x.codec ++ "." ++ x.hash | none => "-")
+    else "ok arm=" ++ a
+  | none, _ => "bad-case add-request"
+  | _, none => "bad-case add-response"
+
 def answer (ws : List String) : String :=
   match splitArrow ws with
+  | some ("add" :: pre, post) => answerAdd pre post
   | some ("req" :: pre, post) => answerReq pre post
   | some ("cli" :: pre, post) => answerCli pre post
   | some (k :: _, _) => "bad-case unknown-kind " ++ k
